@@ -196,6 +196,7 @@ func checkC08(c *Ctx) {
 	c.checkActingUserNotSession("C08.1c-store-write-keyed-by-acting-user", "store-writes")
 	c.checkDelIdRecorded()
 	c.checkCachedMapsNotMutatedInPlace()
+	c.checkReaderRowUnderChannelName()
 	c.checkP2PRecordsAgree()
 	c.checkUpdateKeysIndependent()
 	c.checkLocalCopyWrittenBack("C08.3c-local-copy-written-back", nil)
